@@ -116,6 +116,7 @@ class VLoop(asyncio.BaseEventLoop):
         self.hooks_before_op: list[Callable[[ExtOp], None]] = []
         self.hooks_after_op: list[Callable[[ExtOp], None]] = []
         self.extra_events: Callable[[], list[tuple[str, Callable[[], None]]]] | None = None
+        self.after_step: Callable[[list[str], int], None] | None = None  # (labels of the enabled events, index taken)
         self.set_exception_handler(self._on_exc)
         self._thread_id = threading.get_ident()
 
@@ -248,10 +249,10 @@ class VLoop(asyncio.BaseEventLoop):
     def enabled(self, allow_timers: bool = True):
         """Canonical ordered list of (label, thunk).  Index 0 is the default."""
         ev: list[tuple[str, Callable[[], None]]] = []
-        if self.extra_events is not None:
-            for lab, th, first in self.extra_events():
-                if first:
-                    ev.append((lab, th))
+        extras = list(self.extra_events()) if self.extra_events is not None else []
+        for lab, th, first in extras:
+            if first is True:
+                ev.append((lab, th))
         if self._ready:
             ev.append(("R", self.run_ready_one))
         for op in self.deliverable_ops():
@@ -265,6 +266,10 @@ class VLoop(asyncio.BaseEventLoop):
         self.parked_drains = [(lab, f) for lab, f in getattr(self, "parked_drains", []) if not f.done()]
         for lab, f in self.parked_drains:
             ev.append((lab, (lambda f=f: f.done() or f.set_result(None))))
+        # "late" events: by default taken only once nothing else can run, but before any timer
+        for lab, th, first in extras:
+            if first == "late":
+                ev.append((lab, th))
         if allow_timers:
             when = self.next_timer_when()
             if when is not None:
@@ -272,10 +277,9 @@ class VLoop(asyncio.BaseEventLoop):
                     ev.append(("T", self.fire_timers))
                 elif (self.preempt_timers or not self._ready) and when - self._vtime <= self.timer_dev_horizon:
                     ev.append(("T", self.fire_timers))
-        if self.extra_events is not None:
-            for lab, th, first in self.extra_events():
-                if not first:
-                    ev.append((lab, th))
+        for lab, th, first in extras:
+            if first is False:
+                ev.append((lab, th))
         return ev
 
     def step(self, allow_timers: bool = True) -> bool:
@@ -287,6 +291,8 @@ class VLoop(asyncio.BaseEventLoop):
             raise StepCap(f"step cap {self.max_steps} hit at vtime {self._vtime}")
         c = self.sched.choose("step", len(ev), tuple(e[0] for e in ev)) if len(ev) > 1 else 0
         ev[c][1]()
+        if self.after_step is not None:
+            self.after_step([e[0] for e in ev], c)
         return True
 
     def run_until(self, pred: Callable[[], bool], *, allow_timers: bool = True,
